@@ -326,7 +326,7 @@ func TestVerifC15Sessions(t *testing.T) {
 		t.Fatalf("reference server anchors: %v", err)
 	}
 	c := vf15Evidence()
-	c.Rule("sessions: one connection per case through ClientFactory/ParseArgs/Dial against refss: server padding length (edges and 0..1308), Y or p-Y, the first flight (response, optionally with coalesced packets; or the first packets after a ticket handshake) cut in 1..3 segments at field boundaries +-1 / inside the last 32 bytes / anywhere, then up to 12 operations {server queues 1..3 packets (data, padding-only, PRNG_SEED, NEW_TICKET), release a segment (1..22 bytes, packet boundary +-1, anything, all), client Write (0..5000 bytes; 1427/1428/2854 edges) fed to the server in a drawn chunking, read buffer size 1/7/1427/65536}; modes: ok, one flipped bit in a packet (MAC, header, body) followed by > 1448 valid bytes, wrong shared secret, one flipped bit in the response; non-trivial = a cut inside the last 32 bytes of the response or a mode other than ok; fingerprint = seed, mode, padding, cuts, operation log")
+	c.Rule("sessions: one connection per case through ClientFactory/ParseArgs/Dial against refss: server padding length (edges and 0..1308), Y or p-Y, the first flight (response, optionally with coalesced packets; or the first packets after a ticket handshake) cut in 1..3 segments at field boundaries +-1 / inside the last 32 bytes / anywhere, then up to 12 operations {server queues 1..3 packets (data, padding-only, PRNG_SEED, NEW_TICKET), release a segment (1..22 bytes, packet boundary +-1, anything, all), client Write (0..5000 bytes; 1427/1428/2854 edges) fed to the server in a drawn chunking, read buffer size 1/7/1427/65536}; at every quiescent point after Dial has returned, on an unmodified stream, everything that has arrived in complete packets must have been delivered (payload), be in the ticket store (NEW_TICKET) or have reset the length distribution (PRNG_SEED) without any further traffic; modes: ok, one flipped bit in a packet (MAC, header, body) followed by > 1448 valid bytes, wrong shared secret, one flipped bit in the response; non-trivial = a cut inside the last 32 bytes of the response or a mode other than ok; fingerprint = seed, mode, padding, cuts, operation log")
 	c.Floor("mode-flip-packet/sessions", 0.15)
 	c.Floor("flip-body/mode-flip-packet", 0.15)
 	c.Floor("flip-header/mode-flip-packet", 0.15)
@@ -377,11 +377,10 @@ func TestVerifC15Sessions(t *testing.T) {
 			issued = srv.Auth.Issue(vf15Fill(k, 9, 16))
 			l0.packet(refss.FlagNewTicket, issued.Payload(), 3, nil)
 			l0.packet(refss.FlagPayload, nil, 0, nil)
+			// response, NEW_TICKET and an empty packet in ONE segment, nothing follows:
+			// the ticket must be in the store at quiescence (checkControl)
 			s.fail(l0.release(l0.queued))
 			s.fail(l0.handshakeDone("ticket-issuing connection"))
-			// the ticket is parked behind the handshake until the next segment
-			l0.packet(refss.FlagPayload, nil, 0, nil)
-			s.fail(l0.release(l0.queued))
 			s.fail(l0.checkDelivery("ticket-issuing connection"))
 			l0.close()
 			s.log = append(s.log, "udh+ticket;")
@@ -549,7 +548,7 @@ func TestVerifC15Sessions(t *testing.T) {
 					refss.MaxPayload+refss.PktOverhead, l.ep.GotLen(), len(l.sent), strings.Join(s.log, " "))
 			}
 		} else {
-			s.fail(l.flushAndCompare(ctx + "; history: " + strings.Join(s.log, " ")))
+			s.fail(l.finalCompare(ctx+"; history: "+strings.Join(s.log, " "), rapid.Bool().Draw(rt, "alsoFlush")))
 		}
 		s.fail(l.upstreamComplete(ctx))
 		nt := inLast32 || mode != vf15ModeOK
